@@ -14,7 +14,10 @@ instance : CNum ℚ where
   ofNat := fun n => (n : ℚ)
 
 instance : LawfulCNum ℚ where
-  add_zero := fun a => add_zero a
+  add_zero_cmp := fun a u n => by
+    show decide (u < (a + 0) / n) = decide (u < a / n)
+    rw [add_zero]
+  zero_add_zero := add_zero (0 : ℚ)
   zero_div_pos := fun d _ => zero_div d
   zero_div_ofNat := fun n _ => zero_div (n : ℚ)
   not_lt_zero_div := fun x m norm => by
